@@ -272,6 +272,13 @@ pub fn check_md_received(sim: &Sim, who: &str, expected: &[MdEntry], got: &Metad
             if got.get(key).is_some() || got.get_all(key).iter().next().is_some() {
                 sim.violation("C08/binary-entry-presented-as-ascii", format!("{who}: ASCII accessor returned a value for binary key {key:?}"));
             }
+            // the values of a key can be walked from either end: same values, opposite order
+            let fwd: Vec<Vec<u8>> = got.get_all_bin(key).iter().map(|v| v.as_encoded_bytes().to_vec()).collect();
+            let mut back: Vec<Vec<u8>> = got.get_all_bin(key).iter().rev().map(|v| v.as_encoded_bytes().to_vec()).collect();
+            back.reverse();
+            if fwd != back {
+                sim.violation("C08/values-differ-when-walked-backwards", format!("{who}: key {key:?}: {} values forwards, walked from the back they come out differently", fwd.len()));
+            }
             if let (Some(first), Some(w)) = (got.get_bin(key), want.first()) {
                 if first.to_bytes().ok().map(|b| b.to_vec()).as_ref() != Some(*w) {
                     sim.violation("C08/binary-metadata-not-preserved", format!("{who}: get_bin({key:?}) is not the first value sent"));
@@ -288,6 +295,11 @@ pub fn check_md_received(sim: &Sim, who: &str, expected: &[MdEntry], got: &Metad
             }
             if got.get_bin(key).is_some() || got.get_all_bin(key).iter().next().is_some() {
                 sim.violation("C08/ascii-entry-presented-as-binary", format!("{who}: binary accessor returned a value for ASCII key {key:?}"));
+            }
+            let mut back: Vec<Vec<u8>> = got.get_all(key).iter().rev().map(|v| v.as_bytes().to_vec()).collect();
+            back.reverse();
+            if have != back {
+                sim.violation("C08/values-differ-when-walked-backwards", format!("{who}: key {key:?}: {} values forwards, walked from the back they come out differently", have.len()));
             }
         }
     }
